@@ -9,6 +9,10 @@
 //              | R:<msgspec>                 Session::send(Message&, custom, no_increment)   -- the by-reference overload
 //              | B:<msgspec>(;<msgspec>)*    Session::send_batch(vector, destroy = true)
 //              | C:<msgspec>(;<msgspec>)*    Session::send_batch(vector, destroy = false)
+//              any call may carry a release point: <kind>@<n>:...  = before making the call the thread spins until the
+//              session's next_send has advanced by at least n since the CONC began (at most 5 s), i.e. until n
+//              messages of this phase have been through send_process -- used to start a call while another thread's
+//              batch is in flight (no hook inside fix8: next_send is read from outside)
 //        = every public send entry point of Session.  Who deletes the message: fix8 for S and B; the thread itself
 //        after the call for R, and for P / C unless pipelining (pm_pipeline "ignores the destroy flag": the writer
 //        thread deletes what it has sent).  R throws f8Exception while pipelining: the return value is X.
@@ -39,6 +43,8 @@
 #include <thread>
 #include <atomic>
 #include <algorithm>
+#include <new>
+#include <cstdlib>
 
 using namespace FIX8;
 
@@ -81,11 +87,106 @@ extern "C" int pthread_join(pthread_t th, void **ret)
 	return real(th, ret);
 }
 
+// ---- a scheduling point at the allocator ------------------------------------------------------------------------
+// The only large heap blocks a session owns are the buffers of Session::_batchmsgs_buffer (reserved in the
+// constructors, reallocated by std::string when an append or a reserve outgrows the capacity: new block, copy, free the
+// old block, re-point).  The global operator new / delete are replaced in this executable (standard C++; the blocks
+// still come from malloc / free, so ASan / TSan see them) and turn the freeing of a block of 64 KB or more during a
+// concurrent phase into a scheduling point -- the only way to place one inside std::string's reallocation without
+// touching fix8:
+//   the thread that is about to free the block (F) waits, for at most 30 ms, until the session has put two more
+//   messages through send_process (next_send advanced by 2); every OTHER thread that reaches that mark stops at its next
+//   allocation until F has gone on; F then frees the block and returns into std::string, which re-points itself, while
+//   the others stay put for another 200 us.
+// In the code as it is the thread that reallocates the batch buffer is the one that appends to it (under _con_spl, or
+// the writer thread): nobody can advance next_send meanwhile, F waits its 30 ms for nothing and a correct program
+// cannot tell.  If some thread reallocates the buffer while ANOTHER thread is inside send_process appending to it, the
+// appends made after the copy are lost for certain: the wire then carries garbage instead of messages and the tie and
+// the oracle fail.
+namespace bigblocks {
+std::atomic<vsess::HSession *> session(nullptr);      // set while the threads of a CONC operation run
+std::atomic<int> count(0);
+std::atomic<int> state(0);                            // 0 idle, 1 F waits for the mark, 2 F has gone on
+std::atomic<unsigned> mark(0);
+std::atomic<int64_t> hold_until(0);
+std::atomic<unsigned long> freer(0);
+std::mutex& mx() { static std::mutex m; return m; }
+void *tab[64];
+void remember(void *p)
+{
+	std::lock_guard<std::mutex> g(mx());
+	for (auto& e : tab) if (!e) { e = p; count.fetch_add(1); return; }
+}
+bool forget(void *p)
+{
+	if (!count.load()) return false;
+	std::lock_guard<std::mutex> g(mx());
+	for (auto& e : tab) if (e == p) { e = nullptr; count.fetch_sub(1); return true; }
+	return false;
+}
+inline unsigned long self() { return static_cast<unsigned long>(pthread_self()); }
+inline void scheduling_point()          // every allocation of every thread
+{
+	const int st(state.load(std::memory_order_relaxed));
+	if (!st || freer.load() == self())
+		return;
+	vsess::HSession *s(session.load());
+	if (!s)
+		return;
+	const int64_t t0(vclock_real_ns());
+	if (st == 1 && s->next_send() - mark.load() < 0x80000000u)       // reached the mark: wait for F
+		while (state.load() == 1 && vclock_real_ns() - t0 < 60000000) sched_yield();
+	while (state.load() == 2 && vclock_real_ns() < hold_until.load()) sched_yield();
+	if (state.load() == 2 && vclock_real_ns() >= hold_until.load()) state.store(0);
+}
+inline void *alloc(std::size_t n)
+{
+	scheduling_point();
+	void *p(std::malloc(n ? n : 1));
+	if (!p) throw std::bad_alloc();
+	if (n >= 65536) remember(p);
+	return p;
+}
+inline void release(void *p)
+{
+	if (p && forget(p))
+	{
+		vsess::HSession *s(session.load());
+		int expected(0);
+		if (s && state.compare_exchange_strong(expected, 1))
+		{
+			freer.store(self());
+			mark.store(s->next_send() + 2);
+			const int64_t t0(vclock_real_ns());
+			while (s->next_send() - mark.load() >= 0x80000000u && vclock_real_ns() - t0 < 30000000) sched_yield();
+			hold_until.store(vclock_real_ns() + 200000);
+			state.store(2);
+			std::free(p);
+			// the caller (std::string::reserve / _M_mutate) re-points the string right after this returns
+			return;
+		}
+	}
+	std::free(p);
+}
+}
+void *operator new(std::size_t n) { return bigblocks::alloc(n); }
+void *operator new[](std::size_t n) { return bigblocks::alloc(n); }
+void operator delete(void *p) noexcept { bigblocks::release(p); }
+void operator delete[](void *p) noexcept { bigblocks::release(p); }
+// the forms libraries built as C++14 and later call (sized, nothrow): all of one family, or ASan reports a mismatch
+void operator delete(void *p, std::size_t) noexcept { bigblocks::release(p); }
+void operator delete[](void *p, std::size_t) noexcept { bigblocks::release(p); }
+void *operator new(std::size_t n, const std::nothrow_t&) noexcept { try { return bigblocks::alloc(n); } catch (...) { return nullptr; } }
+void *operator new[](std::size_t n, const std::nothrow_t&) noexcept { try { return bigblocks::alloc(n); } catch (...) { return nullptr; } }
+void operator delete(void *p, const std::nothrow_t&) noexcept { bigblocks::release(p); }
+void operator delete[](void *p, const std::nothrow_t&) noexcept { bigblocks::release(p); }
+
 namespace {
 
 struct Call
 {
 	char kind = 'S';          // S P R B C
+	unsigned wait = 0;        // release point (see above), 0 = none
 	bool batch = false;
 	std::vector<Message *> msgs;
 	unsigned custom = 0;
@@ -171,11 +272,21 @@ protected:
 			std::vector<Call> prog;
 			if (tok != "-")
 			{
-				for (const auto& cs : split(tok, '+'))
+				for (const auto& cs0 : split(tok, '+'))
 				{
+					std::string cs(cs0);
+					unsigned wait(0);
+					if (cs.size() > 2 && cs[1] == '@')
+					{
+						const size_t colon(cs.find(':'));
+						if (colon == std::string::npos) throw std::invalid_argument("call");
+						wait = static_cast<unsigned>(std::stoul(cs.substr(2, colon - 2)));
+						cs = cs.substr(0, 1) + cs.substr(colon);
+					}
 					if (cs.size() < 2 || cs[1] != ':' || std::string("SPRBC").find(cs[0]) == std::string::npos)
 						throw std::invalid_argument("call");
 					Call c;
+					c.wait = wait;
 					c.kind = cs[0];
 					c.batch = cs[0] == 'B' || cs[0] == 'C';
 					if (!c.batch)
@@ -223,6 +334,11 @@ protected:
 					if (k < 3) sched_yield();
 					else if (k < 5) { for (volatile unsigned j(0); j < ((x >> 8) & 1023u); ++j) {} }
 				}
+				if (c.wait)
+				{
+					const int64_t t0(vclock_real_ns());
+					while (ss->next_send() - before < c.wait && vclock_real_ns() - t0 < 5000000000LL) {}
+				}
 				std::string r;
 				const bool pipe(_p.pm == pm_pipeline);
 				bool mine(false);        // the thread deletes the messages after the call
@@ -261,10 +377,13 @@ protected:
 			});
 		while (ready.load() < n) sched_yield();
 		std::fputs("C25-CONC-BEGIN\n", stderr);
+		bigblocks::state.store(0);
+		bigblocks::session.store(ss);
 		go.store(true);
 		for (auto& th : ths) th.join();
 		done.store(true);
 		if (ticker.joinable()) ticker.join();
+		bigblocks::session.store(nullptr);
 		if (_p.pm == pm_pipeline)
 			wait_writer(frames0 + total, before + static_cast<unsigned>(total));
 		std::fprintf(stderr, "C25-CONC-END ticks=%lu\n", tick_count);
